@@ -59,13 +59,16 @@ class SingleRootField(June2018ReleaseValidationRule):
         return []
 
     def validate(self, path, definitions, **__):
+        errors = []
         for operation in definitions["OperationDefinition"]:
             if operation.operation_type == "subscription":
-                return self._validate_selection_set(
-                    operation,
-                    operation.selection_set,
-                    definitions["FragmentDefinition"],
-                    path,
+                errors.extend(
+                    self._validate_selection_set(
+                        operation,
+                        operation.selection_set,
+                        definitions["FragmentDefinition"],
+                        path,
+                    )
                 )
 
-        return []
+        return errors
